@@ -456,7 +456,7 @@ def body_C08(ctx):
 def body_C14(ctx):
     import roundtrip as R
     rng = ctx.rng
-    progs = R.triple_progs(ctx.n(8, 1)) + [R.random_prog(rng) for _ in range(ctx.n(1000, 8000))]
+    progs = R.triple_progs(ctx.n(8, 1)) + R.keyword_progs() + [R.random_prog(rng) for _ in range(ctx.n(1000, 8000))]
     reals, bad = R.run(ctx, progs, kinds=G.KINDS)
     ctx.k1_reals += reals[:3]
     for r in reals:
@@ -559,9 +559,14 @@ def body_C11(ctx):
     items = [(ctx.rng.pick(G.KINDS), s, "operators") for s in G.fam_operators() if "{" in s]
     items += [(ctx.rng.pick(G.KINDS), s, "wrappers") for s in G.fam_wrappers() if "{" in s]
     ctx.k1(mk_cases(items))
+    # typed chains against the plain method chain with the blocks bound first, in operand order: every operator with a block
+    # operand, both operands of fold / try_fold as blocks (each alone and together, in a later step, inside a wrapper)
+    run_chains(ctx, ctx.n(40, 600), (1, 6), "C11")
     ctx.out.coverage["rule"] = ("programs with block operands on 2/3 of all operators (initial values included): capture events must come in "
                                 "branch-then-position order, once each, after the previous step's events and before the step's chain events, "
-                                "on the calling thread; K1 on every operator with block operands (both operands of fold/try_fold, in wrappers)")
+                                "on the calling thread; K1 on every operator with block operands (both operands of fold/try_fold, in wrappers); "
+                                "K2-chains: typed chains with block operands (fold / try_fold with one and with two block operands) against the "
+                                "plain method chain with the blocks evaluated first, in operand order")
 
 
 def body_C12(ctx):
